@@ -41,6 +41,9 @@ def parse_url(url: str) -> tuple:
         raise ValueError("url is invalid")
 
     scheme, url = url.split(":", 1)
+    if not url.startswith("//"):
+        # no authority: "ws:a://b" must not be read as a URL with host "b"
+        raise ValueError("url is invalid")
 
     # urlsplit, not urlparse: urlparse strips ";parameters" off the last path
     # segment, which belong to the resource that has to be requested.
